@@ -112,9 +112,15 @@ Definition sig_ok (c : c19_case) (st : table) (o : obs_meth) : bool :=
                  (signature (fst (render_method (Env (cc_self c) (cc_pkg_imports c)) st m0)))
   end.
 
+Definition sigs_ok (c : c19_case) : bool :=
+  let st := final_table c in forallb (sig_ok c st) (cc_obs c).
+
+(* the compile check gates: a collected method carrying another declaration's signature makes
+   `var _ Rendered = pointer-to-T` fail ("wrong type for method"), which is verdict 1; a
+   signature text that differs from the rendering of Go's declaration while the package still
+   compiles denotes the same type and is a difference from the model (verdict 2, see model_eq) *)
 Definition spec_ok (c : c19_case) : bool :=
-  methods_ok c && forallb (names_ok c) (cc_obs c) &&
-  (let st := final_table c in forallb (sig_ok c st) (cc_obs c)) && cc_compiled c.
+  methods_ok c && forallb (names_ok c) (cc_obs c) && cc_compiled c.
 
 (* ---- model side ---- *)
 Definition meth_eq (o : obs_meth) (m : rmeth) : bool :=
@@ -147,7 +153,7 @@ Definition goms_ok (c : c19_case) : bool :=
 Definition c19_judge (c : c19_case) : nat :=
   if negb (goms_ok c) then 3
   else if negb (in_domain c) then 0
-  else verdict (spec_ok c) (model_eq c).
+  else verdict (spec_ok c) (model_eq c && sigs_ok c).
 
 (* informational judgement of the cases outside the quantifier: model comparison only *)
 Definition c19_judge_info (c : c19_case) : nat :=
@@ -157,7 +163,7 @@ Definition c19_judge_info (c : c19_case) : nat :=
 Definition c19_judge_all (c : c19_case) : nat :=
   let mo := model_of c in
   if negb (goms_ok c) then 3
-  else if in_domain_with mo c then verdict (spec_ok c) (model_eq_with mo c)
+  else if in_domain_with mo c then verdict (spec_ok c) (model_eq_with mo c && sigs_ok c)
   else if model_eq_with mo c then 0 else 12.
 
 Definition c19_nontrivial (c : c19_case) : bool :=
